@@ -172,6 +172,7 @@ def print_axioms(prop, modules, theorems):
 def cargo_build(harness, extra_env=None):
     """build a harness crate under /verif/harness from /repo's current tree"""
     d = os.path.join(VERIF, "harness", harness)
+    link_repo()
     lock = os.path.join(d, "Cargo.lock")
     src = os.path.join(REPO, "Cargo.lock")
     with Lock("cargo-" + harness):
@@ -184,6 +185,17 @@ def cargo_build(harness, extra_env=None):
             sh(["cp", src, lock])
             rc, out = sh(["cargo", "build", "--offline"], cwd=d, env=env, timeout=7200)
     return rc == 0, out
+
+
+def link_repo():
+    """harness crates depend on ../repo/<crate> ; harness/repo is a symlink to the repo under test"""
+    link = os.path.join(VERIF, "harness", "repo")
+    want = os.path.realpath(REPO)
+    if os.path.islink(link) and os.path.realpath(link) == want:
+        return
+    if os.path.islink(link) or os.path.exists(link):
+        os.remove(link)
+    os.symlink(want, link)
 
 
 def harness_bin(harness):
